@@ -300,20 +300,24 @@ impl<Src, Dst> Mat4x4<RealToReal<3, Src, Dst>> {
     pub fn inverse(&self) -> Mat4x4<RealToReal<3, Dst, Src>> {
         use super::float::f32;
         if cfg!(debug_assertions) {
-            let det = self.determinant();
-            // Compare to the magnitude of the rows of the linear part so that
-            // uniformly small (or large) matrices are not deemed singular
-            let mag = self.0[..3].iter().fold(1.0, |prod, row| {
+            // Scale the rows of the linear part to unit magnitude first, so
+            // that uniformly small (or large) matrices are not deemed singular
+            // and their determinant cannot under- or overflow
+            let mut rows = self.0;
+            for row in &mut rows[..3] {
                 let max = row[..3].iter().fold(0.0, |max, &e| {
                     let abs = f32::abs(e);
                     if abs > max { abs } else { max }
                 });
-                prod * max
-            });
+                if max > 0.0 {
+                    row[..3].iter_mut().for_each(|e| *e /= max);
+                }
+            }
+            let det = Self::new(rows).determinant();
             assert!(
-                f32::abs(det) > f32::EPSILON * mag,
+                f32::abs(det) > f32::EPSILON,
                 "a singular, near-singular, or non-finite matrix does not \
-                 have a well-defined inverse (determinant = {det})"
+                 have a well-defined inverse (normalized determinant = {det})"
             );
         }
 
